@@ -877,7 +877,29 @@ def run(ctx):
     ctx.cov["base_discarded"] = len(discarded)
     ctx.cov["base_discarded_list"] = discarded[:40]
 
-    mres = programs.pmap(lambda j: run_prog(binary, base, files_of(j["text"], j["lib"])), jobs)
+    # faults located in the IMPORTED module's file: the diagnostic must name lib.ms
+    lib_lines = LIB.rstrip("\n").split("\n")
+    main_for_lib = PREAMBLE.split("\n")[0] + "\nimport lib\nzz1 = lib.lf(lib.lv)\nprint \"END\"\n"
+
+    def libmut(i, new, lo=None, hi=None):
+        l = list(lib_lines)
+        l[i:i + 1] = new
+        return "\n".join(l) + "\n", (lo or i + 1, hi or i + len(new))
+    lib_mutants = [("wrong_init", libmut(0, ['export lv: int = "four"'])), ("wrong_init", libmut(1, ["export ls: str = 4"])),
+                   ("unknown_name", libmut(0, ["export lv: int = nowhere"])), ("wrong_return", libmut(3, ['  return "x"'], 3, 5)),
+                   ("missing_return", libmut(3, [], 3, 4)), ("unsupported_operator", libmut(3, ["  return a * true"], 3, 5)),
+                   ("wrong_init", libmut(2, ["export lf: fn(int) -> str = fn(a: int) -> int {"], 3, 5)),
+                   ("non_bool_condition", libmut(3, ["  if a {", "    return 1", "  }", "  return a * 2"], 3, 8))]
+    for fault, (ltext, span) in lib_mutants:
+        jobs.append({"fault": fault, "template": "module_file", "note": "fault inside the imported file lib.ms", "ctx": ["imported_file"],
+                     "text": main_for_lib, "span": span, "lib": True, "src": "matrix", "libtext": ltext, "fname": "lib.ms"})
+
+    def files_of_job(j):
+        f = files_of(j["text"], j["lib"])
+        if "libtext" in j:
+            f["lib.ms"] = j["libtext"]
+        return f
+    mres = programs.pmap(lambda j: run_prog(binary, base, files_of_job(j)), jobs)
     matrix = {}
     bad = 0
     classes = {}
@@ -886,7 +908,7 @@ def run(ctx):
         for c in set(j["ctx"]):
             cell = matrix.setdefault(j["fault"], {})
             cell[c] = cell.get(c, 0) + 1
-        v = judge(r[0], r[1], r[2], j["span"])
+        v = judge(r[0], r[1], r[2], j["span"], j.get("fname", "main.ms"))
         if v is None:
             continue
         bad += 1
@@ -896,7 +918,7 @@ def run(ctx):
         classes[cls] = classes.get(cls, 0) + 1
         body = j["text"][len(PREAMBLE):] if j["text"].startswith(PREAMBLE) else j["text"]
         ctx.report(cls, "ill-typed mutant (%s in %s, context %s; %s): %s" % (j["fault"], j["template"], "/".join(j["ctx"]), j["note"], why),
-                   {"files": files_of(j["text"], j["lib"]), "mutated_lines": j["span"], "after_preamble": body[-1500:], "fault": j["fault"], "context": j["ctx"],
+                   {"files": files_of_job(j), "mutated_lines": j["span"], "after_preamble": body[-1500:], "fault": j["fault"], "context": j["ctx"],
                     "observed": {"rc": r[0], "stdout": r[1][-1500:], "stderr": r[2][-600:]},
                     "how": "write the files into an empty directory and run `mscript run main.ms -q` there"})
     for j, r in list(zip(jobs, mres))[:3]:
@@ -942,6 +964,9 @@ def run(ctx):
                            {"files": {"main.ms": c[0]}, "term": c[1], "observed": {"rc": r[0], "stdout": r[1][-1200:]},
                             "correspondence": "Reject/Typing.v check_prog vs compiler verdict (core fragment)"}, found_input=False)
 
+    if len(discarded) > 0.25 * len(progs) or core_discarded > 0.25 * ncore:
+        ctx.report("generator-degraded", "%d of %d generated base programs (%d of %d core programs) are not accepted by the compiler: the templates no longer match the language"
+                   % (len(discarded), len(progs), core_discarded, ncore), {"discarded": discarded[:10]}, found_input=False)
     ctx.cov["evaluations"] = len(jobs) + len(progs) + len(cases)
     ctx.cov["triples"] = len(jobs)
     ctx.cov["distinct_nontrivial"] = len({(j["fault"], j["template"], tuple(j["ctx"])) for j in jobs})
